@@ -29,8 +29,9 @@ EXPLANATION = (
     "afkverif.kafka_schema is the oracle transcribed from the protocol guide. Terms are compared leaf by leaf, so "
     "splitting or merging struct formats or renaming locals is invisible while a dropped, extra, re-typed, reordered or "
     "mis-bound field is reported by name. Version dispatch is evaluated on the abstract values {0} and >= 2."
+    ' Also: the compressed wrapper is written in the format of the messages it wraps (R4); the fallback state of the version table is one falsy constant used by every store and comparison (R6/R7).'
 )
-SHARED = [('C07', ['R7'], 'version discovery tries every broker and every bootstrap host whatever the error, and so ends in an answer or in the fallback to version 0')]
+SHARED = [('C16', ['R3'], 'after UNKNOWN_MEMBER_ID the member id is reset to the empty string the JoinGroup grammar asks for on a first join (not to a null)'), ('C07', ['R7'], 'version discovery tries every broker and every bootstrap host whatever the error, and so ends in an answer or in the fallback to version 0')]
 ASSUMPTIONS = ["Kafka protocol guide layouts as transcribed in afkverif/kafka_schema.py (DESIGN.md appendix A)",
                "brokers list ApiVersions entries by ascending key so that table[key] is that key's entry (get_api_version)"]
 KCQ = "kafkacodec:KafkaCodec"
@@ -365,6 +366,23 @@ def run(ctx):
             "legal, distinct value)", where(kinit, kinit.node), "client constructed with clientId='' sends the library default id in every header")
 
     # ---- R4 codec pairing
+    # a message carries the key and value it was given: null stays null, empty stays empty (`x or None` loses the difference)
+    cmf = ctx.func("kafkacodec:create_message")
+    ccm_ = ctx.cfg(cmf)
+    okv, whyv = True, ""
+    n_ctor = 0
+    for n_ in ccm_.nodes:
+        for c_ in n_.calls():
+            if call_name(c_) == "Message" and len(c_.args) >= 4:
+                n_ctor += 1
+                for idx_, pname in ((2, cmf.params[1]), (3, cmf.params[0])):
+                    og_ = value_origins(ccm_, n_.id, c_.args[idx_], params=cmf.params) if isinstance(c_.args[idx_], ast.Name) else [(n_.id, c_.args[idx_])]
+                    if not og_ or not all(isinstance(e_, ast.Name) and e_.id == pname and d_ == ccm_.entry.id for d_, e_ in og_):
+                        okv, whyv = False, "Message(...) argument %d is `%s`, not the `%s` parameter as given" % (idx_, norm((og_ or [(0, c_.args[idx_])])[0][1], 50), pname)
+    r.check(okv and n_ctor >= 1, "kafkacodec:create_message#key-value-as-given", whyv or "no Message constructed", where(cmf, cmf.node),
+            "an empty value goes out as a null (a tombstone on a compacted topic), an empty key as no key: the acknowledged request does not "
+            "contain the messages that were sent")
+
     r = ctx.rule("R4", "attribute constant <-> compression function agree on the encoder side and mirror the decoder; wrapper format = message format", 4, "A")
     pairs = {"create_gzip_message": ("gzip_encode", "CODEC_GZIP"), "create_snappy_message": ("snappy_encode", "CODEC_SNAPPY")}
     for fn, (comp, const) in sorted(pairs.items()):
